@@ -505,6 +505,60 @@ theorem mfi_path (hT : legalThreshold T = true) (hc : CfgFor cfg T (r + 1)) {k :
     · intro ks old child' c1 hq
       exact (mfi_set_MQ hT hc hk hv hhk d child child' ks old c c1 (hQinC child hmem) hq).size_lt hT
 
+/-- `hQRset`: the handle after the tree-level `set` satisfies the loose root invariant -/
+theorem mfi_QRset (hT : legalThreshold T = true) (hc : CfgFor cfg T (r + 1)) {k : MKey} (hk : KeyOk T (r + 1) D k)
+    {v : Elem} (hv : ValueOkM v) (hhk : k.dig 0 < 2^64) (m : OMap r) (hinv : MapInv T D m)
+    (hdig : ∀ x ∈ MTree.digests0 m.d m.root, x < 2^64) (c : Ctx) (ks : MKey) (old : Option Elem) (root' : MTree r m.d)
+    (c1 : Ctx) (hq : MTree.set cfg m.d m.root k v c = .ok (ks, old, root', c1)) :
+    MQR T D ({ m with root := root', count := if old.isNone then m.count + 1 else m.count } : OMap r) := by
+  obtain ⟨d, root, ty, cnt, seed⟩ := m
+  obtain ⟨h1, h2⟩ := MTree.set_spec hT hc hk hv d true root c hinv.tree
+  by_cases hl : TLimited cfg d root k
+  · have hq' : MTree.set cfg d root k v c = .ok (ks, old, root', c1) := hq
+    rw [h1 hl] at hq'; cases hq'
+  · obtain ⟨old', t'', c'', heq, hp⟩ := h2 hl
+    have hq' : MTree.set cfg d root k v c = .ok (ks, old, root', c1) := hq
+    rw [heq] at hq'
+    cases hq'
+    refine ⟨hp.sinv, ?_, ?_, fun x hx => ?_⟩
+    · show treeInl d root' = false
+      rw [hp.inl, ← isInlined_eq d root ty cnt seed]; exact hinv.standalone
+    · show (MTree.hdr d root').size ≤ maxThr T + slack T d
+      have := hp.size_le; have := slack1_le T d; have := MTreeInv.le_max d true root hinv.tree; omega
+    · rcases hp.digs x hx with h' | h'
+      · exact hdig x h'
+      · rw [h']; exact hhk
+
+/-- `hszR`: the size of the (possibly promoted) root fits `uint32` -/
+theorem mfi_promote_size_lt (hT : legalThreshold T = true) (m1 : OMap r) (c : Ctx) (h : MQR T D m1) :
+    (MTree.hdr _ (m1.promoteIfSingleChild c).1.root).size < 2^32 := by
+  obtain ⟨d, root, ty, cnt, seed⟩ := m1
+  cases d with
+  | zero => exact Nat.lt_of_le_of_lt h.2.2.1 (mfi_bound hT 0)
+  | succ d =>
+    have hs : SInv T D (d + 1) true root := h.1
+    obtain ⟨hml, hlen⟩ := hs
+    have hh : MMetaSlab.childHdrs root = (MMetaSlab.children root).map (MTree.hdr d) := hml.2.1
+    rcases hc : MMetaSlab.children root with _ | ⟨a, _ | ⟨b, rest⟩⟩
+    · rw [hc] at hlen; simp at hlen
+    · have hh1 : MMetaSlab.childHdrs root = [MTree.hdr d a] := by rw [hh, hc]; rfl
+      rw [promote_eq d root ty cnt seed c hh1 hc]
+      have ha : MTreeInv T D d false a := hml.2.2.2.2.1 a (by rw [hc]; exact List.mem_cons_self)
+      have hle := MTreeInv.le_max d false a ha
+      have hb := mfi_bound hT d
+      cases d with
+      | zero =>
+        show (MDataSlab.hdr a).size - Gen.mapDataSlabPrefixSize + Gen.mapRootDataSlabPrefixSize < 2^32
+        have hle' : (MDataSlab.hdr a).size ≤ maxThr T := hle
+        simp only [Gen.mapDataSlabPrefixSize, Gen.mapRootDataSlabPrefixSize]
+        omega
+      | succ d =>
+        show (MMetaSlab.hdr a).size < 2^32
+        have hle' : (MMetaSlab.hdr a).size ≤ maxThr T := hle
+        omega
+    · rw [promote_id d root ty cnt seed c hh (by rw [hc]; simp)]
+      exact Nat.lt_of_le_of_lt h.2.2.1 (mfi_bound hT (d + 1))
+
 end
 
 end
